@@ -310,7 +310,7 @@ fn comment_text(ch: &mut Choices) -> Vec<u8> {
         let n = 40_000 + (ch.next() as usize) * 100;
         return (0..n).map(|k| b" long comment 1 2 0 c p"[k % 23]).collect();
     }
-    const TEXTS: [&[u8]; 8] = [
+    const TEXTS: [&[u8]; 12] = [
         b"",
         b" a comment",
         b" p cnf 3 4",
@@ -319,6 +319,12 @@ fn comment_text(ch: &mut Choices) -> Vec<u8> {
         b" \xc3\xa4\xff binary \x00",
         b" c c c",
         b" -0 {1} v s",
+        // bytes that differ from LF / CR / blank in one bit or only in the high bit
+        b" caf\x8a au lait \x8d\x89\xa0 \x0b\x0c\x1a end of it",
+        b" \xe3\x82\x8a\xe3\x82\x8a utf-8 with continuation byte 8a \xf0\x9f\x98\x8a",
+        // carriage returns that are not part of a line end (progress output redrawn in place)
+        b" progress 10%\r progress 20%\r done",
+        b" doubled line end\r",
     ];
     TEXTS[ch.pick(TEXTS.len())].to_vec()
 }
